@@ -17,6 +17,7 @@ var Registry = map[string]func(tier string){
 	"C08": C08,
 	"C09": C09,
 	"C10": C10,
+	"C11": C11,
 	"C12": C12,
 	"C13": C13,
 	"C14": C14,
